@@ -64,7 +64,7 @@ type c17 struct{}
 func init()            { core.Register(c17{}) }
 func (c17) ID() string { return "C17" }
 
-var c17Kinds = []string{"Seal", "Open", "Encrypt", "Decrypt", "NewCipher", "NewGCM", "SignHashed", "VerifyHashed", "Verify", "DerivePublic", "GenerateKey", "SM3", "CheckOnCurve", "SM3Fork"}
+var c17Kinds = []string{"Seal", "Open", "Encrypt", "Decrypt", "NewCipher", "NewGCM", "SignHashed", "VerifyHashed", "Verify", "DerivePublic", "GenerateKey", "SM3", "CheckOnCurve", "SM3Fork", "SignFail"}
 
 func (c17) Plan(tier string) core.Plan {
 	if L2Enabled {
@@ -358,6 +358,11 @@ func c17Run(op c17Op, w *c17World, yield func(site int)) (out string) {
 		k := op.K % len(w.priv)
 		r, s, err := sm2.SignHashed(rng.New(rng.Content{TailSeed: op.Seed}, nil, nil), w.priv[k], w.es[k])
 		return "sign:" + core.Hex8(append(append([]byte{}, r...), s...)) + tf(err != nil)
+	case "SignFail": // a signing call whose randomness source fails in mid-draw (history for later calls)
+		k := op.K % len(w.priv)
+		prog := []rng.Step{{Kind: "err", N: int(op.Seed % 32), Err: "EOF"}}
+		r, s, err := sm2.SignHashed(rng.New(rng.Content{TailSeed: op.Seed}, prog, nil), w.priv[k], w.es[k])
+		return "signfail:" + core.Hex8(append(append([]byte{}, r...), s...)) + tf(err != nil)
 	case "VerifyHashed":
 		k := op.K % len(w.priv)
 		ok, err := sm2.VerifyHashed(w.px[k], w.py[k], w.es[k], w.rs[k], w.ss[k])
@@ -432,14 +437,6 @@ func (c17) Execute(sc core.Script, keep bool) *core.Result {
 	for i, b := range bufs {
 		snaps[i] = append([]byte{}, b...)
 	}
-	// serial pre-pass on the private twin
-	expected := make([][]string, len(s.Tasks))
-	noYield := func(int) {}
-	for t, ops := range s.Tasks {
-		for _, op := range ops {
-			expected[t] = append(expected[t], c17Run(op, twin, noYield))
-		}
-	}
 	// concurrent phase
 	var sch *sched.Sched
 	if s.Explicit {
@@ -500,6 +497,17 @@ func (c17) Execute(sc core.Script, keep bool) *core.Result {
 		log.Add("%s", e.text)
 	}
 	log.Add("switches=%d ends=%v", len(sch.Rec), sch.RecEnds)
+	// The serial reference pass (same calls, alone, on the private twin objects) runs AFTER
+	// the concurrent phase: for a correct library the order is immaterial, but anything the
+	// library initialises lazily at package level is then first touched under concurrency
+	// (in the first run of each worker process) instead of being warmed up serially.
+	expected := make([][]string, len(s.Tasks))
+	noYield := func(int) {}
+	for t, ops := range s.Tasks {
+		for _, op := range ops {
+			expected[t] = append(expected[t], c17Run(op, twin, noYield))
+		}
+	}
 	// verdicts
 	for t := range s.Tasks {
 		for i, op := range s.Tasks[t] {
@@ -542,7 +550,7 @@ func (c17) Execute(sc core.Script, keep bool) *core.Result {
 				mark(aeadUsers, shared.ctA[op.C%s.NSealed], t)
 			case "Seal":
 				mark(aeadUsers, shared.ctA[op.C%s.NSealed], t)
-			case "SignHashed", "VerifyHashed", "Verify", "DerivePublic", "CheckOnCurve":
+			case "SignHashed", "VerifyHashed", "Verify", "DerivePublic", "CheckOnCurve", "SignFail":
 				mark(keyUsers, op.K%s.NKeys, t)
 			}
 		}
